@@ -114,6 +114,11 @@ def run(ctx):
             fs = rng.choice([0.5, 1.0, 2.0, 2.5, 4.0, 5.0, 8.0, 10.0])
         else:
             fs = C.dyadic(rng, 0.5, 10.0, 8)
+        if rng.random() < 0.25:
+            # FFT bins that coincide exactly with nodes of the spectrum's grid (first and last node included)
+            n = rng.choice([16, 32, 64, 128, 256, 512]) + rng.choice([0, 1])
+            fs = rng.choice([0.5, 1.0, 2.0, 4.0, 8.0])
+            ctx.tally("aligned FFT bins")
         seed = rng.randrange(0, 2 ** 32)
         seed2 = rng.randrange(0, 2 ** 32)
         while seed2 == seed:
@@ -162,6 +167,8 @@ def run(ctx):
         cases.append(case)
         for comp in comps:
             mlines.append("%s %s %s %d %s %s" % (cmd, comp, C.fx(fs), n, body, C.flist([float(i) for i in idx])))
+        mlines.append("fstep %s" % C.flist(f))
+        mlines.append("dstep %s" % (C.flist(m["dirs"]) if two_d else "0"))
         mlines.append("grid %s %d" % (C.fx(fs), n))
         if not two_d:
             mlines.append("resample %s %s %s %d" % (C.flist(f), C.flist(E), C.fx(fs), n))
@@ -211,7 +218,18 @@ def run(ctx):
             ctx.oracle_fail("surface_timeseries raised %s" % im, rep0)
             continue
         # ---- grid / resampling correspondence
-        g = mod[m["ml0"] + len(m["comps"])]
+        # ---- bin widths of the spectrum's own (possibly irregular) grid
+        fsm = [C.unfx(t) for t in mod[m["ml0"] + len(m["comps"])][1:]]
+        fsi = [C.unfx(t) for t in im["fstep_input"]]
+        if len(fsm) != len(fsi) or any(not C.close(a, b, 1e-12, 0, f[-1] - f[0]) for a, b in zip(fsm, fsi)):
+            ctx.disagree("frequency_step of the input grid: impl %r model %r" % (fsi[:5], fsm[:5]), dict(rep0),
+                         is_property_failure=True)
+        if m["two_d"]:
+            dsm = [C.unfx(t) for t in mod[m["ml0"] + len(m["comps"]) + 1][1:]]
+            dsi = [C.unfx(t) for t in im["dstep_input"]]
+            if len(dsm) != len(dsi) or any(not C.close(a, b, 1e-12, 1e-12) for a, b in zip(dsm, dsi)):
+                ctx.disagree("direction_step: impl %r model %r" % (dsi[:5], dsm[:5]), dict(rep0), is_property_failure=True)
+        g = mod[m["ml0"] + len(m["comps"]) + 2]
         gN = int(g[0])
         gM = int(g[1])
         gfreq = [C.unfx(t) for t in g[2:2 + gM]]
@@ -230,7 +248,7 @@ def run(ctx):
                 break
         iE = [C.unfx(t) for t in im["resampled"]["E"]]
         if not m["two_d"]:
-            rs = mod[m["ml0"] + len(m["comps"]) + 1]
+            rs = mod[m["ml0"] + len(m["comps"]) + 3]
             mE = [C.unfx(t) for t in rs[1:]]
             emax = max(m["E"]) + 1e-300
             if len(mE) != len(iE) or any(not C.close(a, b, 1e-9, 0, emax) for a, b in zip(iE, mE)):
@@ -323,8 +341,30 @@ def run(ctx):
                                 dict(rep, scale=m["scale"]))
 
 
-READY = False
-LEVEL_TEXT = "TODO"
-LEVEL_NOTE = "TODO"
-TECHNIQUE = "Coq proof over R (Parseval by telescoping sums) + extracted-model correspondence + variance oracles"
+READY = True
+LEVEL_TEXT = ("Theorems (Coq, over R, every signal length, sampling rate, spectrum, phase array, component): nfft = 2(n/2) is "
+              "even and n or n-1; the series and the time axis both have nfft samples; the code raises exactly for n < 4; "
+              "t_i = i/fs (spacing 1/fs); FFT bins f_k = k fs/nfft and frequency_step of that grid is fs/nfft in every bin; "
+              "|factor|^2 = 1, w^2, cos^2, sin^2, w^2 cos^2, w^2 sin^2 with cos^2+sin^2 splitting z into x,y and w into "
+              "u,v; |amplitude|^2 = area E/2 |factor|^2; scaling the spectrum by c >= 0 multiplies the series by sqrt c "
+              "with the same phases (1D and 2D); PARSEVAL in full: with nfft*irfft written as its defining real sum, for "
+              "ANY coefficient list of length M >= 1 the population variance of the 2M samples equals "
+              "sum_{k=1}^{M-1} 2|X_k|^2 (orthogonality of cos/sin(2 pi k i/N) over a full period proved by a "
+              "telescoping Dirichlet sum; X_0 only sets the mean, no Nyquist term); hence for a non-negative 1D "
+              "spectrum, and for a 2D spectrum whose energy is in one direction column (any column, non-negative "
+              "direction step), var(series) = sum_{k>=1} (fs/nfft) dtheta E_k |factor_k|^2 with E_k the spectrum "
+              "resampled linearly to the FFT bins (zero outside its grid); the resampled spectrum of a non-negative "
+              "spectrum is non-negative. The model is tied to timeseries.py / spectrum.py / the interpolation code by "
+              "comparing the whole series (all six components) of the extracted model with surface_timeseries on "
+              "generated 1D and 2D spectra, the phases being re-drawn with numpy from the same seed.")
+LEVEL_NOTE = ("Not proved: that numpy.fft.irfft computes its defining sum and that numpy's generator produces the phases "
+              "(both validated by execution: the model is fed default_rng(seed).uniform(0,2pi,shape)); floating point "
+              "rounding (series compared at 1e-9 of its rms, variance identities at 1e-9 relative). Seed reproducibility "
+              "and seed sensitivity are checked on the implementation only. Spectra are NaN-free and non-negative; "
+              "direction grids have all cyclic gaps < 180 degrees (a larger gap gives a negative direction_step and a "
+              "NaN amplitude that numpy's skip-NaN sum silently drops: outside the premise). For series longer than 2048 "
+              "samples the model is compared on about 200 random sample indices.")
+TECHNIQUE = "Coq proof over R (Parseval by telescoping trigonometric sums) + extracted-model correspondence + variance oracles"
 DESIGN_REF = "DESIGN.md section 5 C16"
+TRUSTED = ["numpy.fft.irfft (defining sum validated by the correspondence of every sample)",
+           "numpy.random.default_rng(seed).uniform: phases are inputs of the model, drawn by the harness with the same call"]
